@@ -974,6 +974,13 @@ func randDoc(rng *rand.Rand) dDoc {
 		used[typ+"/"+id] = true
 		d.Included = append(d.Included, randDocRes(rng, typ, id))
 	}
+	if rng.Intn(40) == 0 && d.Kind != "errors" && d.Kind != "null" {
+		// a long included list (work split by size, batches, goroutines)
+		for i := 1; i <= 33+rng.Intn(8); i++ {
+			d.Included = append(d.Included, randDocRes(rng, []string{"t2", "t1"}[i%2], fmt.Sprintf("i%02d", i)))
+		}
+		rng.Shuffle(len(d.Included), func(i, j int) { d.Included[i], d.Included[j] = d.Included[j], d.Included[i] })
+	}
 	// selections: subsets, plus the odd entries the property names
 	sel := func(t string) {
 		all := sortedKeys(docFields[t])
